@@ -86,6 +86,33 @@ class Spec:
                     out.append(k)
         return out
 
+    def instantiate(self, rng):
+        """one concrete instance of a template (used when the tree under test does arithmetic on key codes, so that
+        Mapper::for_layout cannot run on symbolic layout keys): distinct non-modifier codes outside the layout's constants,
+        the first ones taken from the ends of the code range and next to 2^8 / 2^9"""
+        names = self.sym_names()
+        used = set(self.const_keys()) | set(MODS)
+        dom = sorted(v for v in DOMAIN if v not in used)
+        pool = [dom[-1]]
+        for b in (512, 256):
+            hi = [v for v in dom if v >= b]
+            if hi:
+                pool.append(hi[0])
+        rest = [v for v in dom if v not in pool and 2 <= v < 200]
+        rng.shuffle(rest)
+        pool = pool + rest
+        sub = {n: pool[i] for i, n in enumerate(names)}
+        f = lambda k: sub.get(k, k) if isinstance(k, str) else k
+        maps = []
+        for m in self.maps:
+            rep = m['rep']
+            if rep[0] == 'Special':
+                rep = (rep[0], [f(k) for k in rep[1]], rep[2], rep[3])
+            maps.append(dict(frm=[f(k) for k in m['frm']], to=[f(k) for k in m['to']], rep=rep, absb=[f(k) for k in m['absb']]))
+        sp = Spec(self.name + '@instance', maps, N=self.N, depth=self.depth, alphabet=None if self.alphabet is None else [f(k) for k in self.alphabet],
+                  note=self.note + '; concrete instance (the tree does arithmetic on key codes)', no_foreign=self.no_foreign)
+        return sp
+
     def describe(self):
         def kn(k):
             return INV.get(k, str(k)) if isinstance(k, int) else '$' + k
@@ -236,6 +263,13 @@ _RNG = None
 _FAST = None
 
 
+class RootPanic(Exception):
+    def __init__(self, what, trace):
+        Exception.__init__(self, what)
+        self.what = what
+        self.trace = list(trace)
+
+
 def make_root(spec, enabled):
     """run the real Mapper::for_layout on the (possibly symbolic) layout"""
     roots = []
@@ -246,8 +280,14 @@ def make_root(spec, enabled):
         try:
             mapper = it.run(F_FOR_LAYOUT, [Ref(Cell(layout_val(spec)))])
         except Panic as e:
-            raise Unsupported('for_layout panicked on a corpus layout %s: %s' % (spec.name, e))
+            raise RootPanic('Mapper::for_layout panicked on the layout: %s' % (e,), it.keys.trace)
+        except PathInfeasible:
+            work.extend(it.new_branches)
+            continue
         work.extend(it.new_branches)
+        if len(roots) >= 3:
+            roots.append(roots[-1])      # the layout constructor forks on the template's symbols: the caller falls back to an instance
+            break
         mon = Mon([dict(m) for m in spec.maps], MODS, enabled)
         roots.append((mapper.f[0], Node(None, mapper.f[1], mon, it.keys, [], 0, None), it))
     return roots
@@ -289,6 +329,11 @@ def expand(node, spec, layout_v, kinds=('Pressed', 'Released')):
                 work.extend(it.new_branches)
                 stats['paths'] += 1
                 continue
+            except PathInfeasible:
+                # outside the explored bound (key symbol cast to an integer: not one of its representative codes)
+                work.extend(it.new_branches)
+                stats['bound_cuts'] = stats.get('bound_cuts', 0) + 1
+                continue
             work.extend(it.new_branches)
             stats['paths'] += 1
             stats['mir_steps'] += it.steps
@@ -322,6 +367,9 @@ def ra_probe(node, spec, layout_v):
             r = it.run(F_RELEASE_ALL, [Ref(mapper)])
         except Panic as e:
             viols.append(('PANIC', 'release_all panicked: %s' % (e,), None, node.hist + [('RA', None)], it.keys))
+            work.extend(it.new_branches)
+            continue
+        except PathInfeasible:
             work.extend(it.new_branches)
             continue
         work.extend(it.new_branches)
@@ -681,6 +729,9 @@ def expand_pair(node, spec, layout_v, consts, N):
                 viols.append(('PANIC', 'mapper step panicked: %s' % (e,), None, node.hist1, node.hist2 + [(kind, k)], it.keys))
                 work.extend(it.new_branches)
                 npaths += 1
+                continue
+            except PathInfeasible:
+                work.extend(it.new_branches)
                 continue
             work.extend(it.new_branches)
             npaths += 1
